@@ -111,13 +111,13 @@ pub fn expand(input: &DeriveInput, trait_name: &'static str) -> Result<TokenStre
             }
         };
 
-        if info.owned && state.default_info.owned {
+        if info.owned {
             funcs.push(func);
         }
-        if info.ref_ && state.default_info.ref_ {
+        if info.ref_ {
             funcs.push(ref_func);
         }
-        if info.ref_mut && state.default_info.ref_mut {
+        if info.ref_mut {
             funcs.push(mut_func);
         }
     }
